@@ -4,8 +4,13 @@ renderer below, read by the real pydsdl (`read_namespace` / `read_files`) and by
 (lean/Model/Reader.lean, which gets the abstract lines, never the text).
 
 Case
-  {"mode": "ns"|"files", "defs": [{"name", "dir", "final_fault", "dfault", "lines": [LINE...]}...],
-   "deco": DECO, "alt": null | {"deco": DECO, "inserts": [[def, pos, LINE]...]}}
+  {"mode": "ns"|"files", "defs": [{"name", "dir", "root", "final_fault", "dfault", "lines": [LINE...]}...],
+   "deco": DECO, "alt": null | {"deco": DECO, "inserts": [[def, pos, LINE]...]}, "exotic": true (optional, see below)}
+   "root" (optional, default "ns"; the same for all definitions of a case): the name of the root namespace directory.  Root, nested
+   namespace ("dir"), type short names and attribute names of 35% of the cases come from pools of legal identifiers that begin with /
+   contain / are all but a suffix of a word of the grammar (KW_* below).  "exotic": comments and string literals of the case contain
+   characters that Python's string API treats specially and the grammar does not (LINE_BOUNDARY, SPACE_LIKE, ... below); the comment
+   text "c" and the tokens hold them as they are written to the file
 LINE
   {"toks": null | [[token, sep]...]   sep = "r" (>=1 blank) | "o" (>=0 blanks) | "n" (nothing) after the token
    "s": null | ["attr", kind, name, normalised type, value] | ["dir", name, EVAL|null, printed text] | ["marker"],
@@ -170,15 +175,24 @@ def printed_literal(canonical: str, brks: typing.List[str], deco: dict) -> str:
     return out
 
 
+def root_of(d: dict) -> str:
+    """The name of the root namespace (directory) the definition lives in: "ns" unless the definition says otherwise."""
+    return d.get("root") or "ns"
+
+
+def case_root(v: dict) -> str:
+    return root_of(v["defs"][0]) if v.get("defs") else "ns"
+
+
 def def_relpath(d: dict) -> str:
     if d.get("badfile"):
-        return d["badfile"]["root"] + "/" + d["badfile"]["rel"]
+        return (root_of(d) if d["badfile"]["root"] == "ns" else d["badfile"]["root"]) + "/" + d["badfile"]["rel"]
     port = "%d." % d["port"] if d.get("port") is not None else ""  # fixed port-ID: `<port>.<Name>.1.0.dsdl`
-    return "ns/" + (d["dir"] + "/" if d.get("dir") else "") + port + d["name"] + ".1.0.dsdl"
+    return root_of(d) + "/" + (d["dir"] + "/" if d.get("dir") else "") + port + d["name"] + ".1.0.dsdl"
 
 
 def def_fullname(d: dict) -> str:
-    return "ns." + (d["dir"] + "." if d.get("dir") else "") + d["name"]
+    return root_of(d) + "." + (d["dir"] + "." if d.get("dir") else "") + d["name"]
 
 
 def target_order(case: dict) -> typing.List[int]:
@@ -361,7 +375,36 @@ def _docs(comp):
     return [[s["doc"]] + [a[4] for a in s["fields"] + s["consts"]] for s in comp["schemas"]]
 
 
+def boundary_chars_before(v: dict, di: int, line: int) -> int:
+    """Characters in front of (numbered) line `line` of definition di at which str.splitlines() breaks but the grammar does not."""
+    d = v["defs"][di]
+    n = 0
+    for i, l in enumerate(d["lines"]):
+        if lineno(d, i) >= line:
+            break
+        text = (l.get("c") or "") + "".join(t[0] for t in l.get("toks") or [] if t[0][:1] in "'\"")
+        n += sum(1 for ch in text if ch in LINE_BOUNDARY)
+    return n
+
+
 def oracle_c17(v: dict, impl: dict) -> typing.Optional[str]:
+    r = oracle_c17_lines(v, impl)
+    if r is not None and r.split(":")[0] in ("wrong-line", "lazy-attribute-line", "print-wrong-location", "print-wrong-text"):
+        # does the reported line count characters that are no line terminators of DSDL (VT, FF, FS, GS, RS, NEL, LS, PS)?
+        if r.startswith("print"):
+            exp = prints_of(v)
+            hit = any(isinstance(p[0], int) and isinstance(p[1], int) and exp.get((p[0], p[1])) != p[2] and
+                      any((k[0] == p[0] or k[0] in reachable(v, p[0])) and exp[k] == p[2] and 0 < p[1] - k[1] <= boundary_chars_before(v, k[0], k[1]) for k in exp)
+                      for p in impl.get("prints") or [])
+        else:
+            f, ln = impl.get("file"), impl.get("line")
+            hit = any(x[0] == f and x[1] is not None and isinstance(ln, int) and 0 < ln - x[1] <= boundary_chars_before(v, f, x[1]) for x in faults_of(v))
+        if hit:
+            return "foreign-line-terminator: a character that is no DSDL line terminator (VT FF FS GS RS NEL LS PS) was counted as a line break (%s)" % r
+    return r
+
+
+def oracle_c17_lines(v: dict, impl: dict) -> typing.Optional[str]:
     r = oracle_c17_numbered(v, impl)
     if r is not None and any(l.get("nl") for d in v["defs"] for l in d["lines"]):
         # would the complaint disappear (or change) if line breaks inside string literals were not counted as lines?
@@ -529,7 +572,8 @@ def read_variant(pydsdl, v: dict, want_types: bool = False):
                     q = q.parent
                 if q != tmp:
                     by_path[str(q.resolve())] = i  # naming the offending directory itself is as good as naming the file in it
-        (tmp / "ns").mkdir(exist_ok=True)
+        root = case_root(v)
+        (tmp / root).mkdir(exist_ok=True)
         lookup = []
         if any(d.get("badfile") and d["badfile"]["root"] == "lib" for d in v["defs"]):
             # a second root namespace that is only looked into for dependencies (it holds a well-formed definition as well)
@@ -561,9 +605,9 @@ def read_variant(pydsdl, v: dict, want_types: bool = False):
                 mod = None
         try:
             if v["mode"] == "files":
-                direct, _tr = pydsdl.read_files([spell(tmp / def_relpath(v["defs"][0]))], [spell(tmp / "ns")], lookup, print_output_handler=handler)
+                direct, _tr = pydsdl.read_files([spell(tmp / def_relpath(v["defs"][0]))], [spell(tmp / root)], lookup, print_output_handler=handler)
             else:
-                direct = pydsdl.read_namespace(spell(tmp / "ns"), lookup, print_output_handler=handler)
+                direct = pydsdl.read_namespace(spell(tmp / root), lookup, print_output_handler=handler)
         finally:
             if mod is not None:
                 try:
@@ -628,9 +672,9 @@ def canonical_check(pydsdl, v: dict, types: dict) -> typing.Optional[str]:
                 f.write(text)
         try:
             if v["mode"] == "files":
-                direct, _tr = pydsdl.read_files([tmp / def_relpath(v["defs"][0])], [tmp / "ns"])
+                direct, _tr = pydsdl.read_files([tmp / def_relpath(v["defs"][0])], [tmp / case_root(v)])
             else:
-                direct = pydsdl.read_namespace(tmp / "ns", [])
+                direct = pydsdl.read_namespace(tmp / case_root(v), [])
         except pydsdl.Error as ex:
             return "canonical rendering rejected: %s: %s" % (type(ex).__name__, str(ex)[-160:])
         again = {t.full_name: t for t in direct}
@@ -1083,14 +1127,26 @@ ML_LITERALS = [("'a\nb'", "'a\\nb'", 1), ("'a\nb'", "'a\\nb'", 1), ('"x\ny\nz"',
 def gen_schema(rng, ctx, deps_to_use: list, union: bool, deprecated_here: bool) -> typing.Tuple[list, int]:
     """Statement lines of one schema (no comments yet) and a bound of its size in bits."""
     ctx["consts"] = {}
-    names = rng.sample(FIELD_NAMES, len(FIELD_NAMES))
-    cnames = rng.sample(CONST_NAMES, len(CONST_NAMES))
+    if ctx.get("kw"):
+        # identifiers that begin with / contain / are all but a suffix of a word of the grammar, mixed with ordinary ones
+        names = rng.sample(KW_ATTR_NAMES, len(KW_ATTR_NAMES)) + rng.sample(FIELD_NAMES, 6)
+        cnames = rng.sample(KW_CONST_NAMES, len(KW_CONST_NAMES)) + rng.sample(CONST_NAMES, 4)
+        rng.shuffle(names)
+        rng.shuffle(cnames)
+    else:
+        names = rng.sample(FIELD_NAMES, len(FIELD_NAMES))
+        cnames = rng.sample(CONST_NAMES, len(CONST_NAMES))
     nf = (rng.randint(2, 4) if union else rng.choice([0, 1, 1, 2, 3, 5])) + len(deps_to_use)
     kinds = ["field"] * nf + ["const"] * rng.choice([0, 0, 1, 2, 3]) + ["print"] * rng.choice([0, 0, 1, 2]) + ["assert"] * rng.choice([0, 0, 1])
     if not union:
         kinds += ["pad"] * rng.choice([0, 0, 1, 2])
     if ctx.get("multiline"):
         kinds += ["mlassert"] * rng.choice([0, 0, 1]) + ["mlconst"] * rng.choice([0, 0, 1])
+    if ctx.get("exotic"):
+        # string literals with special characters written raw between the quotes (no line breaks: the statement stays on one line)
+        kinds += ["xprint"] * rng.choice([0, 1, 1, 2]) + ["xassert"] * rng.choice([0, 0, 1]) + ["xconst"] * rng.choice([0, 0, 1])
+    if deps_to_use and rng.random() < 0.3:
+        kinds.append("refprint")  # a composite type reference inside an expression (in front of or behind the field of that type)
     rng.shuffle(kinds)
     pending_deps = list(deps_to_use)
     fields_left = nf
@@ -1117,7 +1173,7 @@ def gen_schema(rng, ctx, deps_to_use: list, union: bool, deprecated_here: bool) 
             name = cnames.pop()
             line, pv = gen_const(rng, ctx, name)
             lines.append(line)
-            if isinstance(pv, int):
+            if isinstance(pv, int) and expr_safe(name):  # see EXPR_UNSAFE: such a constant is declared but never referred to
                 ctx["consts"][name] = pv
         elif k == "print":
             r = rng.random()
@@ -1144,6 +1200,20 @@ def gen_schema(rng, ctx, deps_to_use: list, union: bool, deprecated_here: bool) 
             else:
                 e, txt = rng.choice(PRINT_EXPRS)
                 lines.append(mk_line(cat(T("@print"), "r", e), ["dir", "print", ["o"], txt]))
+        elif k == "refprint":
+            j = rng.choice(deps_to_use)
+            toks, norm = ref_tokens(rng, ctx["defs"], ctx["me"], j)
+            lines.append(mk_line(cat(T("@print"), "r", toks), ["dir", "print", ["o"], norm], deps=[j]))
+        elif k == "xprint":
+            lit, shown = gen_exotic_literal(rng)
+            lines.append(mk_line(T("@print", "r", lit), ["dir", "print", ["o"], shown]))
+        elif k == "xassert":
+            lit, _shown = gen_exotic_literal(rng)
+            lines.append(mk_line(T("@assert", "r", lit, "o", "!=", "o", "''"), ["dir", "assert", ["b", True], ""]))
+        elif k == "xconst":
+            lit, _shown = gen_exotic_literal(rng)
+            name = cnames.pop()
+            lines.append(mk_line(T("bool", "r", name, "o", "=", "o", lit, "o", "!=", "o", "''"), ["attr", "const", name, "bool", "true"]))
         elif k == "mlassert":
             lit, _shown, nl = rng.choice(ML_LITERALS)
             ln = mk_line(T("@assert", "r", lit, "o", "!=", "o", "''"), ["dir", "assert", ["b", True], ""])
@@ -1198,26 +1268,168 @@ def gen_schema(rng, ctx, deps_to_use: list, union: bool, deprecated_here: bool) 
     return lines, size
 
 
-def stray_line(rng) -> dict:
+
+# ------------------------------------------------------------------------------------------------- identifiers that look like keywords
+#
+# Every word the grammar knows - the primitive type names (bool, byte, utf8, uintN, intN, floatN, voidN), the cast modes, the boolean
+# literals, the directive names - is also the BEGINNING, a PART, or ALL BUT A SUFFIX of perfectly legal identifiers (`boolean`,
+# `bytecraft`, `float32x3`, `uint8_t`, `true_`, `is_false`, `sealed`): reserved are only the exact words (and patterns) of the name rules.
+# A PEG alternative that matches a prefix never hands the rest back, so the order of alternatives / a missing word boundary decides
+# whether such an identifier is read as what it is.  35% of the namespaces take their root namespace name, nested namespace name,
+# type short names, field / constant names from these pools, so that such identifiers stand at every position: absolute and relative
+# type references (scalar, array element, constant type), declared attribute names, file and directory names.
+KW_ATTR_NAMES = ["boolean", "bool_", "is_bool", "bytes", "byte_", "bytecount", "utf8_", "utf8text", "uint8_", "uint8_t", "uint16x", "a_uint8", "int8_", "int16s",
+                 "integer", "uintx", "int_", "float32x", "float64_", "floating", "float_", "void1x", "void_", "voided", "truncated_", "truncated1", "untruncated",
+                 "saturated_", "saturated8", "true_", "truely", "true1", "is_true", "false_", "falsey", "false0", "not_false", "union", "union_", "sealed",
+                 "sealed_", "unsealed", "extent", "extent_", "deprecated", "deprecated_", "assert", "assert_", "print", "printer", "offset", "_offset"]
+KW_CONST_NAMES = ["TRUE_", "FALSE_", "BOOLEAN", "BOOL_", "BYTES", "BYTE_", "UTF8_", "UINT8_MAX", "INT16_MIN", "FLOAT32_EPS", "VOID1S", "TRUNCATED_", "SATURATED_",
+                  "SEALED", "EXTENT", "UNION", "PRINT", "ASSERT",
+                  # lower-case ones, i.e. with the very letters of the keyword
+                  "true_c", "false_c", "bool_c", "byte_c", "utf8_c", "uint8_c", "int8_c", "float16_c", "void1_c", "truncated_c", "saturated_c", "sealed_c"]
+KW_DEF_NAMES = ["float32x3", "uint8x4", "int16s", "Boolean", "bool_", "Bytes", "byte_t", "utf8string", "void1s", "Truncated_", "saturatedX", "true_", "Falsey",
+                "sealed", "Union_", "extent", "Deprecated_", "printer", "Assert_", "uint_", "floats", "truncatedint8", "saturatedbool"]
+KW_DIRS = ["bool_ns", "booleans", "bytes_", "utf8x", "uint8s", "int16_", "float64x", "void1_", "truncated_ns", "saturatedly", "true_ns", "falsehood", "sealed_",
+           "print", "union"]
+KW_ROOTS = ["boolean", "bytecraft", "bytes", "byte_", "utf8tools", "uint8_ext", "int16s", "float32x", "void1s", "truncated_", "saturatedx", "true_", "falsey",
+            "sealed", "union", "extent_", "print_", "Bool1", "uintx", "assert"]
+
+# KEPT OUT of the generator (GENUINE DEFECT of the unchanged pydsdl, reported to the coordinator): an identifier that BEGINS like a
+# primitive type name or a boolean literal cannot be USED IN AN EXPRESSION although it can be declared: `uint8 truex = 1` is accepted,
+# `uint8 Y = truex + 1` (or `@print uint8x`, `@assert bool_ == 1`, `uint8[bytes] a`) is a DSDLSyntaxError, because `expression_atom`
+# tries `type` and `literal` before `identifier`, both match the prefix (`true`, `uint8`, `bool`) and nothing requires a word boundary
+# behind it.  Constants with such names are therefore declared but never referred to by later expressions.
+EXPR_UNSAFE = re.compile(r"^(?:true|false|bool|byte|utf8|(?:uint|int|float|void)[1-9])")
+
+
+def expr_safe(name: str) -> bool:
+    return EXPR_UNSAFE.match(name) is None
+
+
+KW_WORDS = ["truncated", "saturated", "deprecated", "boolean", "bool", "byte", "utf8", "uint", "int", "float", "void", "true", "false", "union", "sealed",
+            "extent", "assert", "print", "offset"]
+
+
+def keyword_in(name: str) -> typing.Optional[str]:
+    """'<how>:<word>' if the (legal) identifier begins with / contains / equals a word of the grammar, else None."""
+    n = name.lower()
+    for w in KW_WORDS:
+        if n == w:
+            return "is:" + w
+    for w in KW_WORDS:
+        if n.startswith(w):
+            return "begins:" + w
+    for w in KW_WORDS:
+        if w in n:
+            return "contains:" + w
+    return None
+
+
+# ------------------------------------------------------------------------------------------------- characters Python treats specially
+#
+# The grammar knows two line terminators (LF, CR LF), two blanks (space, tab) and treats every other character inside a comment
+# (`#[^\r\n]*`) and inside a string literal as ordinary text.  Python's string API has wider notions: str.splitlines() / keepends also
+# break at VT, FF, FS, GS, RS, NEL, LS, PS; str.strip() / isspace() / split() also take US, NBSP, the Unicode spaces for blanks;
+# lower() / upper() / casefold() change the length of some strings; NFC / NFKC normalisation rewrites others; some are invisible.
+# 30% of the namespaces carry such characters in their comments (header, attribute docs, stray comment lines between statements: at the
+# start, in the middle, at the end of the comment, alone, several of them, in front of text that looks like a statement) and in string
+# literals of @print / @assert / constant statements.  The reference knows only LF / CR LF as line terminators: docs must keep every
+# character, reported lines count only real line terminators.
+LINE_BOUNDARY = ["\x0b", "\x0c", "\x1c", "\x1d", "\x1e", "\x85", "\u2028", "\u2029"]
+SPACE_LIKE = ["\x1f", "\xa0", "\u1680", "\u2000", "\u2003", "\u2009", "\u200a", "\u202f", "\u205f", "\u3000"]
+INVISIBLE = ["\u200b", "\u200d", "\u2060", "\ufeff", "\xad", "\x7f", "\x1b", "\x08"]
+CASE_MAPPED = ["\xdf", "\u0130", "\u0131", "\u017f", "\u212a", "\u01c5", "\ufb01", "\u0390", "\u03c2"]
+NORMALISED = ["e\u0301", "\u212b", "\u2126", "\u1100\u1161", "\xe9", "\uf900", "\u0344"]
+ASTRAL = ["\U0001f600", "\U0001d400", "\U00010400"]
+EXOTIC = {"line-boundary": LINE_BOUNDARY, "space-like": SPACE_LIKE, "invisible": INVISIBLE, "case-mapped": CASE_MAPPED, "normalised": NORMALISED, "astral": ASTRAL}
+ESCAPED_BY_REPR = set(LINE_BOUNDARY + SPACE_LIKE + INVISIBLE)  # what repr() of a string shows as an escape: controls, format characters, separators
+STATEMENT_LIKE = ["uint16 legacy_mode", "void8", "@sealed", "@print 1", "---", "uint8 X = 1", "@assert false", "@extent 64"]
+
+
+def exotic_class(ch: str) -> typing.Optional[str]:
+    for k, v in EXOTIC.items():
+        if any(ch in unit for unit in v):
+            return k
+    return None
+
+
+def exotic_classes(text: str) -> typing.List[str]:
+    out = []
+    for ch in text or "":
+        k = exotic_class(ch) if not (" " <= ch <= "~" or ch == "\t") else None
+        if k and k not in out:
+            out.append(k)
+    return out
+
+
+def gen_exotic_unit(rng) -> str:
     r = rng.random()
-    if r < 0.35:
+    return rng.choice(LINE_BOUNDARY) if r < 0.55 else rng.choice(rng.choice([SPACE_LIKE, INVISIBLE, CASE_MAPPED, NORMALISED, ASTRAL]))
+
+
+def gen_exotic_comment(rng) -> str:
+    """Comment text (what follows the '#') with 1-3 special characters."""
+    words = rng.choice([" Page one.", " see below", "x", " replaces the old declaration:", "", " ", " a b  c", " end", "#", " 100 %"])
+    u = gen_exotic_unit(rng)
+    r = rng.random()
+    if r < 0.25:
+        out = words + u  # at the end of the comment line (a form feed as a page break ...)
+    elif r < 0.4:
+        out = rng.choice(["", " "]) + u + words  # at the start
+    elif r < 0.6:
+        out = words + u + rng.choice([" tail", "tail", " ", "", " Page two."])  # in the middle
+    elif r < 0.75:
+        out = words + u + rng.choice(STATEMENT_LIKE)  # what follows looks like a statement (it is comment text)
+    elif r < 0.85:
+        out = rng.choice(["", " "]) + u  # alone
+    else:
+        out = words + u + rng.choice(["", " ", "-"]) + gen_exotic_unit(rng) + rng.choice(["", " z"]) + (gen_exotic_unit(rng) if rng.random() < 0.4 else "")
+    return out
+
+
+def repr_piece(text: str) -> str:
+    """How Python's repr() shows the characters of `text` (no quotes, backslashes or ASCII controls in it)."""
+    out = ""
+    for ch in text:
+        n = ord(ch)
+        if ch in ESCAPED_BY_REPR:
+            out += "\\x%02x" % n if n < 0x100 else "\\u%04x" % n if n < 0x10000 else "\\U%08x" % n
+        else:
+            out += ch
+    return out
+
+
+def gen_exotic_literal(rng) -> typing.Tuple[str, str]:
+    """(string literal token, what @print shows for it): 1-2 special characters written RAW between the quotes."""
+    a, b = rng.choice(["a", "", "x y", "Page one."]), rng.choice(["b", "", " ", "uint8 x"])
+    body = a + gen_exotic_unit(rng) + b + (gen_exotic_unit(rng) if rng.random() < 0.3 else "")
+    q = rng.choice("'\"")
+    return q + body + q, "'" + repr_piece(body) + "'"
+
+
+def gen_comment(rng, exotic: bool = False) -> str:
+    return gen_exotic_comment(rng) if exotic and rng.random() < 0.5 else rng.choice(COMMENTS)
+
+
+def stray_line(rng, exotic: bool = False) -> dict:
+    r = rng.random()
+    if r < (0.2 if exotic else 0.35):
         return mk_line()
-    if r < 0.5:
+    if r < (0.3 if exotic else 0.5):
         return mk_line(lead=rng.choice([" ", "\t", "  \t ", "    "]))
-    return mk_line(c=rng.choice(COMMENTS), lead=rng.choice(["", "", "", " ", "\t "]))
+    return mk_line(c=gen_comment(rng, exotic), lead=rng.choice(["", "", "", " ", "\t "]))
 
 
-def decorate(rng, stmts: list, density: float) -> list:
+def decorate(rng, stmts: list, density: float, exotic: bool = False) -> list:
     out = []
     for _ in range(rng.choice([0, 0, 1, 2, 3]) if rng.random() < density else 0):
-        out.append(stray_line(rng))
+        out.append(stray_line(rng, exotic))
     for st in stmts:
         if rng.random() < 0.3 * density + 0.05:
-            st["c"] = rng.choice(COMMENTS)
+            st["c"] = gen_comment(rng, exotic)
         out.append(st)
         if rng.random() < density:
             for _ in range(rng.choice([1, 1, 2, 3])):
-                out.append(stray_line(rng))
+                out.append(stray_line(rng, exotic))
     return out
 
 
@@ -1239,8 +1451,21 @@ def gen_deco(rng, n: int, prop: str = "C03") -> dict:
 def gen_namespace(rng, max_defs: int = 4, prop: str = "C03") -> dict:
     n = rng.choice([1, 1, 2, 2, 3, 4][: max(1, max_defs + 2)])
     n = min(n, max_defs)
-    names = rng.sample(DEF_NAMES, n)
-    defs = [{"name": names[i], "dir": rng.choice(["", "", "sub"]), "final_fault": False, "dfault": None, "lines": []} for i in range(n)]
+    kw = rng.random() < 0.35
+    exotic = rng.random() < 0.3
+    root, sub = "ns", "sub"
+    if kw:
+        # keyword-like identifiers at every position: root namespace, nested namespace, type short names, attribute names
+        root = rng.choice(KW_ROOTS) if rng.random() < 0.7 else root
+        sub = rng.choice(KW_DIRS) if rng.random() < 0.7 else sub
+        pool = rng.sample(KW_DEF_NAMES, n) + rng.sample(DEF_NAMES, n)
+        names = []
+        for i in range(n):
+            cand = pool[i] if rng.random() < 0.7 else pool[n + i]
+            names.append(cand if cand.lower() not in [x.lower() for x in names] else pool[n + i])
+    else:
+        names = rng.sample(DEF_NAMES, n)
+    defs = [{"name": names[i], "dir": rng.choice(["", "", sub]), "root": root, "final_fault": False, "dfault": None, "lines": []} for i in range(n)]
     edges: typing.Dict[int, list] = {i: [] for i in range(n)}
     chain = rng.random() < 0.5
     for i in range(n):
@@ -1256,7 +1481,7 @@ def gen_namespace(rng, max_defs: int = 4, prop: str = "C03") -> dict:
     density = rng.choice([0.0, 0.3, 0.6, 0.9])
     multiline = prop == "C17" and rng.random() < 0.18
     for i in reversed(range(n)):
-        ctx = {"defs": defs, "me": i, "bits": bits, "consts": {}, "multiline": multiline}
+        ctx = {"defs": defs, "me": i, "bits": bits, "consts": {}, "multiline": multiline, "kw": kw, "exotic": exotic}
         deps = list(edges[i])
         rng.shuffle(deps)
         if service[i]:
@@ -1267,10 +1492,12 @@ def gen_namespace(rng, max_defs: int = 4, prop: str = "C03") -> dict:
             bits[i] = 0
         else:
             stmts, bits[i] = gen_schema(rng, ctx, deps, rng.random() < 0.3, deprecated[i])
-        defs[i]["lines"] = decorate(rng, stmts, density)
+        defs[i]["lines"] = decorate(rng, stmts, max(density, 0.3) if exotic else density, exotic)
         defs[i]["kind"] = "service" if service[i] else "message"
         defs[i]["deprecated"] = deprecated[i]
     case = {"mode": rng.choice(["ns", "ns", "files"]), "defs": defs, "deco": gen_deco(rng, n, prop), "alt": None}
+    if exotic:
+        case["exotic"] = True
     if prop == "C17":
         # fixed port-IDs (file name prefix) inside the regulated range of the vendor root namespace `ns`, both range ends included
         taken: set = set()
@@ -1294,7 +1521,7 @@ def gen_alt(rng, case: dict, prop: str = "C03") -> dict:
     ins = []
     for _ in range(rng.choice([0, 1, 2, 4])):
         di = rng.randrange(n)
-        ins.append([di, rng.randint(0, len(case["defs"][di]["lines"])), stray_line(rng)])
+        ins.append([di, rng.randint(0, len(case["defs"][di]["lines"])), stray_line(rng, bool(case.get("exotic")))])
     return {"deco": gen_deco(rng, n, prop), "inserts": ins}
 
 
@@ -1500,7 +1727,7 @@ def inject_fault(rng, case: dict, avoid: typing.Optional[set] = None) -> typing.
             return None
         why, rel = rng.choice(FILE_NAME_FAULTS)
         sub = rng.choice(["", "", "sub/", "nested/", "deep/er/"])
-        defs.append({"name": "Zq", "dir": "", "final_fault": True, "dfault": FILE_NAME, "kind": "message", "deprecated": False,
+        defs.append({"name": "Zq", "dir": "", "root": root_of(defs[0]), "final_fault": True, "dfault": FILE_NAME, "kind": "message", "deprecated": False,
                      "lines": [mk_line(T("@sealed"), ["dir", "sealed", None, ""])],
                      "badfile": {"root": rng.choice(["ns", "ns", "lib"]), "rel": sub + rel, "why": why}})
         if avoid is not None:
@@ -1695,7 +1922,7 @@ def inject_fault(rng, case: dict, avoid: typing.Optional[set] = None) -> typing.
             suffix = len(".Response") if d.get("kind") == "service" else 0
             total = MAX_NAME - suffix + rng.choice([1, 1, 2, 40])  # length of the full name `ns.<dir>.<name>`: one too long and more
             new_dir = "d" + "i" * rng.choice([99, 150, 200])
-            new_name = d["name"] + "x" * (total - len("ns.") - len(new_dir) - 1 - len(d["name"]))
+            new_name = d["name"] + "x" * (total - len(root_of(d) + ".") - len(new_dir) - 1 - len(d["name"]))
             d["dfault"] = "name-too-long"
         rename_def(case, f, new_dir, new_name)
         d["final_fault"] = True
@@ -1754,6 +1981,36 @@ def droppable(d: dict, i: int) -> bool:
 # ------------------------------------------------------------------------------------------------- the suite
 
 KEYS = ("res", "types", "file", "line", "prints")
+
+# The model driver is spoken to in lines of JSON, and the harness cuts its answer into lines with str.splitlines() (harness/common.py,
+# a shared file): a NEL / LS / PS that the driver writes unescaped into a doc string would cut an answer in two.  The reader model treats
+# comment and @print texts as opaque (it strips one leading blank and joins with line feeds), so every character outside printable
+# ASCII / tab / line feed travels to the model as the ASCII text `\u{hex}` (backslashes too, wherever that is needed to keep the
+# encoding injective) and is decoded when the answer comes back.
+_PLAIN = re.compile(r"^[\t\n -~]*$")
+_ENCODED = re.compile(r"\\u\{([0-9a-f]+)\}")
+
+
+def enc_text(x):
+    if isinstance(x, str):
+        if _PLAIN.match(x) and "\\u{" not in x:
+            return x
+        return "".join(ch if (ch in "\t\n" or " " <= ch <= "~") and ch != "\\" else "\\u{%x}" % ord(ch) for ch in x)
+    if isinstance(x, list):
+        return [enc_text(y) for y in x]
+    if isinstance(x, dict):
+        return {k: enc_text(y) for k, y in x.items()}
+    return x
+
+
+def dec_text(x):
+    if isinstance(x, str):
+        return _ENCODED.sub(lambda m: chr(int(m.group(1), 16)), x) if "\\u{" in x else x
+    if isinstance(x, list):
+        return [dec_text(y) for y in x]
+    if isinstance(x, dict):
+        return {k: dec_text(y) for k, y in x.items()}
+    return x
 
 
 class TextSuite(common.Suite):
@@ -1816,11 +2073,11 @@ class TextSuite(common.Suite):
             return {"id": case.get("id"), "targets": [0], "defs": [{"final_fault": True, "lines": []}]}
         return {"id": case.get("id"), "targets": target_order(case),
                 "defs": [{"final_fault": True, "lines": []} if d.get("unload") else
-                         {"final_fault": bool(d.get("final_fault")), "lines": render_def(d, case["deco"], i)[1]} for i, d in enumerate(case["defs"])]}
+                         {"final_fault": bool(d.get("final_fault")), "lines": enc_text(render_def(d, case["deco"], i)[1])} for i, d in enumerate(case["defs"])]}
 
     def compare(self, case, impl, model, prop):
         a = {k: impl.get(k) for k in KEYS if k in impl}
-        b = {k: model.get(k) for k in KEYS if k in model}
+        b = {k: dec_text(model.get(k)) for k in KEYS if k in model}
         if "err" in model:
             return "model driver error: %s" % model["err"]
         if "types" in b:
@@ -1982,6 +2239,43 @@ class TextSuite(common.Suite):
             fs = faults_of(case)
             if fs and impl.get("file") not in (None, 0) and case["mode"] == "files":
                 yield "fault-in-dependency"
+        def kwf(what: str, nm: str):
+            k = keyword_in(nm)
+            if k:
+                yield "keyword-like:%s:%s" % (what, k.split(":")[0])
+                yield "keyword-like-word:" + k.split(":")[1]
+
+        yield from kwf("root-namespace", case_root(case))
+        for d in case["defs"]:
+            yield from kwf("nested-namespace", d.get("dir") or "")
+            yield from kwf("type-name", d["name"])
+            for li, l in enumerate(d["lines"]):
+                st = l.get("s")
+                if st and st[0] == "attr" and st[2] and not l.get("bad"):
+                    yield from kwf(st[1] + "-name", st[2])
+                for j in l.get("deps") or []:
+                    if j < len(case["defs"]) and not l.get("bad"):
+                        tgt = case["defs"][j]
+                        written = next((t[0] for t in l.get("toks") or [] if t[0].endswith(tgt["name"] + ".1.0")), "")
+                        if written and keyword_in(written.split(".")[0]):
+                            yield "keyword-like:reference:%s:%s" % ("relative" if written == tgt["name"] + ".1.0" else "absolute",
+                                                                    "in-expression" if st and st[0] == "dir" else "array-element" if "[" in (st[3] if st else "") else "scalar")
+                            yield "keyword-like-word:" + keyword_in(written.split(".")[0]).split(":")[1]
+                if l.get("c") is not None:
+                    pos_kind = "trailing-comment" if l.get("toks") else "comment-line"
+                    for k in exotic_classes(l["c"]):
+                        c = l["c"]
+                        idx = [i for i, ch in enumerate(c) if exotic_class(ch) == k and not " " <= ch <= "~"]
+                        where = "only" if len(c.strip(" ")) == len(idx) else "end" if idx[-1] == len(c) - 1 else "start" if idx[0] <= 1 else "middle"
+                        yield "special-char:%s:%s" % (k, pos_kind)
+                        yield "special-char-position:%s:%s" % ("line-boundary" if k == "line-boundary" else "other", where)
+                        if k == "line-boundary" and any(m.get("bad") or (m.get("s") and m["s"][:2] == ["dir", "print"]) for m in d["lines"][li + 1:]):
+                            yield "special-char:line-boundary:fault-or-print-behind"
+                for tok, _sep in l.get("toks") or []:
+                    if tok[:1] in "'\"" and not l.get("bad"):
+                        for k in exotic_classes(tok):
+                            yield "special-char:%s:string-literal" % k
+                            yield "special-char-literal-in:%s" % ("@" + st[1] if st and st[0] == "dir" else "constant")
         for d in case["defs"]:
             yield "kind:" + str(d.get("kind"))
             last = d["lines"][-1] if d["lines"] else None
